@@ -24,6 +24,10 @@ pub struct Config {
     pub rseed: u64,
     /// no source installed: the shipped OsRng path (statistical oracle only)
     pub real: bool,
+    /// fault: the OS generator refuses (getrandom fails with EINVAL, injected with a
+    /// seccomp filter in a forked child per call); implies `real`
+    #[serde(default)]
+    pub os_fail: bool,
     pub eps: Vec<u16>,
     pub calls_per_ep: usize,
 }
@@ -123,6 +127,9 @@ eps! {
     55, "rng::copy_randombytes(513)", false, true;
     56, "rng::copy_randombytes(4097)", false, true;
     57, "rng::randombytes_buf(64..5000)", false, false;
+    58, "crypto_secretstream_xchacha20poly1305_init_push (reused State object)", false, true;
+    59, "crypto_box_keypair_inplace (reused buffers)", false, true;
+    60, "crypto_secretbox_keygen_inplace (reused buffer)", false, true;
 }
 
 pub fn available_eps() -> Vec<u16> {
@@ -131,6 +138,11 @@ pub fn available_eps() -> Vec<u16> {
 }
 
 pub struct RngWorld {
+    /// objects deliberately reused across calls (entry points 58-60)
+    reused_state: RefCell<dryoc::classic::crypto_secretstream_xchacha20poly1305::State>,
+    reused_bufs: RefCell<([u8; 32], [u8; 32], [u8; 24])>,
+    /// os_fail: last value returned per entry point
+    last_returned: BTreeMap<u16, Vec<u8>>,
     cfg: Config,
     ledger: Rc<RefCell<Ledger>>,
     /// per entry point: the random components seen in this run
@@ -324,6 +336,25 @@ impl RngWorld {
                 id(b)
             }
             57 => id(dryoc::rng::randombytes_buf(64 + (arg % 4937) as usize)),
+            58 => {
+                // the same State object and the same header buffer every time
+                let key: [u8; 32] = pattern(9, 32).try_into().unwrap();
+                let mut st = self.reused_state.borrow_mut();
+                let mut bufs = self.reused_bufs.borrow_mut();
+                crypto_secretstream_xchacha20poly1305::crypto_secretstream_xchacha20poly1305_init_push(&mut st, &mut bufs.2, &key);
+                id(bufs.2.to_vec())
+            }
+            59 => {
+                let mut bufs = self.reused_bufs.borrow_mut();
+                let (pk, sk, _) = &mut *bufs;
+                crypto_box::crypto_box_keypair_inplace(pk, sk);
+                kp(&pk[..], &sk[..])
+            }
+            60 => {
+                let mut bufs = self.reused_bufs.borrow_mut();
+                crypto_secretbox::crypto_secretbox_keygen_inplace(&mut bufs.0);
+                id(bufs.0.to_vec())
+            }
             #[cfg(feature = "nightly")]
             44..=52 => {
                 use dryoc::protected::*;
@@ -357,6 +388,159 @@ impl RngWorld {
     }
 }
 
+/// Install a seccomp filter that makes getrandom(2) fail with EINVAL for the
+/// calling process (used only inside a forked child).
+#[cfg(all(target_os = "linux", target_arch = "x86_64"))]
+unsafe fn deny_getrandom() -> bool {
+    const AUDIT_ARCH_X86_64: u32 = 0xC000_003E;
+    let filt = [
+        libc::sock_filter { code: 0x20, jt: 0, jf: 0, k: 4 },                          // ld arch
+        libc::sock_filter { code: 0x15, jt: 0, jf: 3, k: AUDIT_ARCH_X86_64 },          // jeq x86_64 else allow
+        libc::sock_filter { code: 0x20, jt: 0, jf: 0, k: 0 },                          // ld nr
+        libc::sock_filter { code: 0x15, jt: 0, jf: 1, k: libc::SYS_getrandom as u32 }, // jeq getrandom
+        libc::sock_filter { code: 0x06, jt: 0, jf: 0, k: 0x0005_0000 | libc::EINVAL as u32 }, // ret ERRNO(EINVAL)
+        libc::sock_filter { code: 0x06, jt: 0, jf: 0, k: 0x7fff_0000 },                // ret ALLOW
+    ];
+    let prog = libc::sock_fprog { len: filt.len() as u16, filter: filt.as_ptr() as *mut libc::sock_filter };
+    if libc::prctl(libc::PR_SET_NO_NEW_PRIVS, 1, 0, 0, 0) != 0 {
+        return false;
+    }
+    libc::prctl(libc::PR_SET_SECCOMP, 2 /* SECCOMP_MODE_FILTER */, &prog as *const libc::sock_fprog) == 0
+}
+
+#[cfg(not(all(target_os = "linux", target_arch = "x86_64")))]
+unsafe fn deny_getrandom() -> bool {
+    false
+}
+
+enum ChildOutcome {
+    Returned(Vec<u8>),
+    #[allow(dead_code)]
+    Refused(String),
+    Panicked,
+    Harness(String),
+}
+
+impl RngWorld {
+    /// Execute one entry point in a forked child in which the OS generator refuses.
+    fn call_in_failing_child(&self, ep: u16, arg: u64) -> ChildOutcome {
+        unsafe {
+            let mut fds = [0 as libc::c_int; 2];
+            if libc::pipe(fds.as_mut_ptr()) != 0 {
+                return ChildOutcome::Harness("pipe failed".into());
+            }
+            let pid = libc::fork();
+            if pid < 0 {
+                return ChildOutcome::Harness("fork failed".into());
+            }
+            if pid == 0 {
+                libc::close(fds[0]);
+                let mut msg: Vec<u8> = Vec::new();
+                if !deny_getrandom() {
+                    msg.push(b'H');
+                } else {
+                    // make sure the fault really is in place before judging anything
+                    let mut probe = [0u8; 8];
+                    let r = libc::syscall(libc::SYS_getrandom, probe.as_mut_ptr(), 8usize, 0u32);
+                    if r >= 0 {
+                        msg.push(b'H');
+                    } else {
+                        match guarded(|| self.call(ep, arg)) {
+                            Ok(Ok(co)) => {
+                                msg.push(b'R');
+                                msg.extend_from_slice(&co.component);
+                            }
+                            Ok(Err(e)) => {
+                                msg.push(b'E');
+                                msg.extend_from_slice(e.as_bytes());
+                            }
+                            Err(_) => msg.push(b'P'),
+                        }
+                    }
+                }
+                let mut off = 0;
+                while off < msg.len() {
+                    let w = libc::write(fds[1], msg[off..].as_ptr() as *const libc::c_void, msg.len() - off);
+                    if w <= 0 {
+                        break;
+                    }
+                    off += w as usize;
+                }
+                libc::_exit(0);
+            }
+            libc::close(fds[1]);
+            let mut buf = Vec::new();
+            let mut chunk = [0u8; 4096];
+            loop {
+                let r = libc::read(fds[0], chunk.as_mut_ptr() as *mut libc::c_void, chunk.len());
+                if r <= 0 {
+                    break;
+                }
+                buf.extend_from_slice(&chunk[..r as usize]);
+            }
+            libc::close(fds[0]);
+            let mut status = 0;
+            libc::waitpid(pid, &mut status, 0);
+            match buf.first() {
+                Some(b'R') => ChildOutcome::Returned(buf[1..].to_vec()),
+                Some(b'E') => ChildOutcome::Refused(String::from_utf8_lossy(&buf[1..]).to_string()),
+                Some(b'P') => ChildOutcome::Panicked,
+                Some(b'H') => ChildOutcome::Harness("could not make getrandom fail in the child (seccomp unavailable?)".into()),
+                _ => {
+                    if libc::WIFSIGNALED(status) {
+                        // the call took the process down: nothing was returned
+                        ChildOutcome::Panicked
+                    } else {
+                        ChildOutcome::Harness("child wrote nothing".into())
+                    }
+                }
+            }
+        }
+    }
+
+    fn step_os_fail(&mut self, ep: u16, arg: u64, info: &EpInfo, out: &mut Out) {
+        let r = self.call_in_failing_child(ep, arg);
+        out.op();
+        out.shape(&format!("F{}", ep));
+        out.cell(&format!("{}|os_fail", info.name));
+        match r {
+            ChildOutcome::Harness(e) => {
+                // not being able to inject the fault is not a verdict on the repository
+                out.probe("os_fail.not_injectable");
+                out.note(&format!("call {} under OS-generator failure: fault not injectable ({})", info.name, e));
+            }
+            ChildOutcome::Panicked => {
+                out.fault("os_generator_refused");
+                out.probe("os_fail.panicked");
+                out.note(&format!("call {} under OS-generator failure -> no value (panic)", info.name));
+            }
+            ChildOutcome::Refused(_) => {
+                out.fault("os_generator_refused");
+                out.probe("os_fail.err");
+                out.note(&format!("call {} under OS-generator failure -> Err", info.name));
+            }
+            ChildOutcome::Returned(v) => {
+                out.fault("os_generator_refused");
+                out.probe("os_fail.returned");
+                out.note(&format!("call {} under OS-generator failure -> returned {} bytes", info.name, v.len()));
+                // a value came back although no randomness could be drawn: it cannot be fresh.
+                // Sound evidence of that: it is all-zero, or equal to what the previous call returned.
+                let zero = v.len() >= 16 && v.iter().all(|b| *b == 0);
+                let repeated = v.len() >= 16 && self.last_returned.get(&ep) == Some(&v);
+                if zero || repeated {
+                    out.violate(
+                        "C11",
+                        "c11.fresh_under_os_failure",
+                        site(&[("entry", info.name)]),
+                        format!("the OS generator refused (getrandom -> EINVAL) but {} returned a {} {}-byte value instead of failing", info.name, if zero { "all-zero" } else { "repeated" }, v.len()),
+                    );
+                }
+                self.last_returned.insert(ep, v);
+            }
+        }
+    }
+}
+
 impl World for RngWorld {
     const NAME: &'static str = "rng";
     type Config = Config;
@@ -379,7 +563,9 @@ impl World for RngWorld {
         } else {
             16 + rng.usize_below(17)
         };
-        Config { prop: prop.to_string(), rseed: rng.next_u64(), real, eps, calls_per_ep: calls }
+        let os_fail = real && !cfg!(feature = "nightly") && rng.chance(1, 3);
+        let calls = if os_fail { 6 } else { calls };
+        Config { prop: prop.to_string(), rseed: rng.next_u64(), real, os_fail, eps, calls_per_ep: calls }
     }
 
     fn new(cfg: &Config) -> Self {
@@ -397,7 +583,16 @@ impl World for RngWorld {
                 l2.borrow_mut().draws.push(dest.to_vec());
             })));
         }
-        RngWorld { cfg: cfg.clone(), ledger, history: BTreeMap::new(), plan: Vec::new(), planned: false }
+        RngWorld {
+            reused_state: RefCell::new(dryoc::classic::crypto_secretstream_xchacha20poly1305::State::new()),
+            reused_bufs: RefCell::new(([0u8; 32], [0u8; 32], [0u8; 24])),
+            last_returned: BTreeMap::new(),
+            cfg: cfg.clone(),
+            ledger,
+            history: BTreeMap::new(),
+            plan: Vec::new(),
+            planned: false,
+        }
     }
 
     fn next_event(&mut self, rng: &mut Rng) -> Option<Event> {
@@ -425,6 +620,10 @@ impl World for RngWorld {
             Some(i) => i,
             None => return,
         };
+        if self.cfg.os_fail {
+            self.step_os_fail(*ep, *arg, info, out);
+            return;
+        }
         let before = self.ledger.borrow().draws.len();
         let r = guarded(|| self.call(*ep, *arg));
         out.op();
